@@ -3382,6 +3382,11 @@ class ISLaEmitter(IslaLanguageListener.IslaLanguageListener):
 
             group_xpath_exprs = list(group)
             qfd_vars = {var for _, var in group_xpath_exprs}
+            if var_type in free_nonterminal_vars_also_in_xpath_expr:
+                # The nonterminal also occurs on its own (as in `<a>.<b> = "x" or
+                # str.len(<a>) > 2`); these occurrences must be in the scope of the
+                # new quantifier, too.
+                qfd_vars.add(var)
             formula = univ_close_over_var_push_in(formula, var, qfd_vars=qfd_vars)
 
             for segments, bound_variable in group_xpath_exprs:
